@@ -245,6 +245,16 @@ pub fn gen_case(check: &str, thorough: bool, seed: u64, index: u64) -> Option<Ca
          let mut rng = Rng::new(case_seed(seed, "C19", index));
          let mut case = base_case("C19", seed, index, &mut rng);
          let sc = crate::c19::gen_scenario(&mut rng, thorough);
+         // index-level scenarios are small: arm the "lock held" points and the fewest shards often
+         if rng.chance(600) {
+            case.knobs.site_mask = u64::MAX;
+         }
+         if rng.chance(500) {
+            case.knobs.shards_override = Some(4);
+         }
+         if rng.chance(500) {
+            case.knobs.steal_permille = 1000;
+         }
          case.label = format!("{}/pool{}/construct{}", sc.ty, sc.pool, sc.construct_pool);
          case.index_scenario = Some(sc);
          case
